@@ -13,3 +13,17 @@ func reconcilePairing2x2(asset string, s1n, s2n, r1n, r2n string, s1, s2, r1, r2
 	receivers := []Receiver{{Name: r1n, Monetary: r1}, {Name: r2n, Monetary: r2}}
 	return Reconcile(asset, senders, receivers)
 }
+
+// three senders, two receivers
+func reconcilePairing3x2(asset string, s1n, s2n, s3n, r1n, r2n string, s1, s2, s3, r1, r2 *big.Int) ([]Posting, InterpreterError) {
+	senders := []Sender{{Name: s1n, Monetary: s1}, {Name: s2n, Monetary: s2}, {Name: s3n, Monetary: s3}}
+	receivers := []Receiver{{Name: r1n, Monetary: r1}, {Name: r2n, Monetary: r2}}
+	return Reconcile(asset, senders, receivers)
+}
+
+// two senders, three receivers
+func reconcilePairing2x3(asset string, s1n, s2n, r1n, r2n, r3n string, s1, s2, r1, r2, r3 *big.Int) ([]Posting, InterpreterError) {
+	senders := []Sender{{Name: s1n, Monetary: s1}, {Name: s2n, Monetary: s2}}
+	receivers := []Receiver{{Name: r1n, Monetary: r1}, {Name: r2n, Monetary: r2}, {Name: r3n, Monetary: r3}}
+	return Reconcile(asset, senders, receivers)
+}
